@@ -54,6 +54,16 @@ impl Env {
         sim.step("Disconnect", json!({"p": pname(p)}), |c| c.disconnect(p));
     }
 
+    /// The network layer disconnects a peer the client has just banned.
+    pub fn enforce_bans(&mut self, sim: &mut Sim) {
+        let banned = sim.last_bans.clone();
+        for i in 0..self.peers.len() {
+            if banned.contains(&self.peers[i].idx) && self.peers[i].connected {
+                self.disconnect(sim, i);
+            }
+        }
+    }
+
     pub fn refresh(&mut self, sim: &mut Sim) {
         sim.step("Refresh", json!({}), |c| c.notify(Proto::Lc, 0));
     }
